@@ -9,6 +9,7 @@ import (
 	"os"
 	"sort"
 	"strings"
+	"time"
 
 	"github.com/holiman/uint256"
 	rctypes "github.com/rigochain/rigo-go/ctrlers/types"
@@ -296,6 +297,44 @@ func mempoolSessions(base *Scenario, begin, end int, b *Builder, view *View, h i
 		mkv("sender's next after delivery only", map[int][]Op{i + 1: {next}})
 	}
 	return out
+}
+
+// ClockProbeOffsets: distances (ms) of a probe transaction's creation time from the moment it is signed: half a second
+// beyond round thresholds into the future, and half a second short of them into the past.
+func ClockProbeOffsets() []int64 {
+	var out []int64
+	for _, t := range []int64{0, 1, 2, 5, 10, 15, 30, 60, 120, 300, 600, 3600} {
+		out = append(out, t*1000+500, -t*1000+500)
+	}
+	return out
+}
+
+// RefreshClockProbes re-signs the probe transactions of a scenario (tag "clockprobe:<ms>") with creation times relative
+// to now.  Called right before the first replica of a pair executes the scenario.
+func RefreshClockProbes(sc *Scenario) int {
+	kr := NewKeyring(sc.Genesis.Seed, sc.NAccts)
+	b := &Builder{KR: kr, ChainID: sc.Genesis.ChainID}
+	n := 0
+	now := time.Now()
+	for i := range sc.Ops {
+		op := &sc.Ops[i]
+		if op.Kind != "deliver" || !strings.HasPrefix(op.Tag, "clockprobe:") {
+			continue
+		}
+		var ms int64
+		fmt.Sscanf(op.Tag, "clockprobe:%d", &ms)
+		tx := &rctypes.Trx{}
+		if tx.Decode(unhex(op.Tx)) != nil {
+			continue
+		}
+		signer := kr.Index(tx.From)
+		if signer <= 0 {
+			continue
+		}
+		op.Tx = HexTx(b.SignAt(tx, signer, sc.Genesis.ChainID, now.Add(time.Duration(ms)*time.Millisecond).UnixNano()))
+		n++
+	}
+	return n
 }
 
 // VariantFile is a self-contained replay of one (history, variant) pair: the base history replica A
